@@ -143,6 +143,39 @@ pub fn run(args: &[String]) {
             case, if with_terminal { format!("{:?}+terminal@{}", kind, tc) } else { format!("{:?}", kind) }, method_name(method), x0, jnum(xend), jnum(rtol), jnum(atol), status, rec.cbs.len().saturating_sub(1), bad.is_none(), bad.unwrap_or_default()
         );
     }
+    // directed: fast dynamics on an interval of a few 1e-12, i.e. steps far below the absolute slack of the segment lookup:
+    // sol(t_i) must still be answered by the segment that contains t_i, not by an earlier one within the slack
+    {
+        std::panic::set_hook(Box::new(|_| {}));
+        struct Fast(f64);
+        impl IVP for Fast { fn ode(&self, _x: f64, y: &[f64], d: &mut [f64]) { d[0] = self.0 * y[0]; } }
+        let mut k = 0;
+        for method in ALL_METHODS {
+            for (lam, span) in [(1e11f64, 3e-11f64), (1e12, 3e-12), (-1e11, 3e-11), (1e11, -3e-11)] {
+                let mut o = Options::builder().method(method).rtol(1e-6).atol(1e-9).dense_output(true).build();
+                if method == Method::RK4 { o.first_step = Some(span.abs() / 37.0); }
+                let (status, bad) = match std::panic::catch_unwind(std::panic::AssertUnwindSafe(|| solve_ivp(&Fast(lam), 0.0, span, &[1.0], o))) {
+                    Ok(Ok(sol)) => {
+                        let mut bad = dense_invariants(&sol);
+                        if bad.is_none() {
+                            // between the samples: the exact solution exp(lam t) to the accuracy of the run
+                            for w in sol.t.windows(2) {
+                                let tm = 0.5 * (w[0] + w[1]);
+                                if let Ok(v) = sol.sol(tm) { let ex = (lam * tm).exp(); if (v[0] - ex).abs() > 1e-4 * ex.abs() { bad = Some(format!("sol({:e}) = {:e}, exact {:e}", tm, v[0], ex)); break; } }
+                            }
+                        }
+                        (format!("{:?}", sol.status), bad)
+                    }
+                    Ok(Err(e)) => (format!("Err({:?})", e), None),
+                    Err(_) => ("panic".to_string(), Some("solve_ivp panicked".to_string())),
+                };
+                if bad.is_some() { n_fail += 1; }
+                println!("{{\"kind\":\"dense\",\"case\":\"tiny-interval-fast-{}\",\"problem\":\"y'={:e}y\",\"method\":\"{}\",\"x0\":0,\"xend\":{:e},\"status\":\"{}\",\"finding_key\":\"c06-lookup-slack\",\"ok\":{},\"why\":{:?}}}",
+                    k, lam, method_name(method), span, status, bad.is_none(), bad.unwrap_or_default());
+                k += 1;
+            }
+        }
+    }
     // directed: the last sample is xend itself while the last dense segment ends at xold + h, which may differ from xend by
     // a rounding error: the continuous solution must still answer at every reported time (and at xend)
     {
